@@ -37,7 +37,7 @@ EOLS = ['\n', '\r\n', '\r']
 WHERE = ['string', 'main', 'imported', 'main-with-import', 'imported-first-of-two', 'string-global-repo-provider',
          'string-builtin-model']
 FORMS = ['single', 'list1', 'list2', 'list3']
-GAPS = [' ', '\n', '\n\n  ', '\t ', ' \n\t']
+GAPS = [' ', '\n', '\n\n  ', '\t ', ' \n\t', ' \r ']      # the last one: a lone CR is whitespace, not a line end (string models)
 MARK = '@@'
 
 
@@ -168,6 +168,8 @@ def load(kind, where, form, gap, eol='\n'):
 
 
 def judge(kind, where, form, gap, eol='\n'):
+    if '\r' in gap and (not where.startswith('string') or (kind == 'notunique-in-import' and where == 'string')):
+        gap = ' '            # model files are read in text mode: a CR there is a line end (see the eol dimension)
     try:
         st, e, want = load(kind, where, form, gap, eol)
     except Exception as ex:  # noqa
